@@ -8,6 +8,17 @@ from .sensor import ChildSensor, Sensor
 
 _LOGGER = logging.getLogger(__name__)
 
+# What json.load and pickle.load raise on a truncated or otherwise damaged file,
+# see the pickle module documentation for the unpickling errors.
+BAD_FILE_ERRORS = (
+    AttributeError,
+    EOFError,
+    ImportError,
+    IndexError,
+    ValueError,
+    pickle.UnpicklingError,
+)
+
 
 class Persistence:
     """Organize persistence file saving and loading."""
@@ -84,7 +95,7 @@ class Persistence:
         """Load sensors safely from file."""
         try:
             loaded = self._load_sensors()
-        except (EOFError, ValueError):
+        except BAD_FILE_ERRORS:
             _LOGGER.error("Bad file contents: %s", self.persistence_file)
             loaded = False
         if not loaded:
@@ -94,7 +105,7 @@ class Persistence:
                     _LOGGER.warning(
                         "Failed to load sensors from file: %s", self.persistence_file
                     )
-            except (EOFError, ValueError):
+            except BAD_FILE_ERRORS:
                 _LOGGER.error("Bad file contents: %s", self.persistence_file)
                 _LOGGER.warning("Removing file: %s", self.persistence_file)
                 os.remove(self.persistence_file)
